@@ -99,7 +99,7 @@ func TestC18_P_RecursiveImport(t *testing.T) {
 		root := genFSRootDir(t, 3, allowFifo)
 		feats := map[string]bool{}
 		if rapid.IntRange(0, scale(60, 25)).Draw(t, "bigfile") == 0 {
-			root.Kids["big.bin"] = &fsNode{Kind: fsFile, Data: lcgBytes(262144*2+17, 5, 0)}
+			root.Kids["big.bin"] = &fsNode{Kind: fsFile, Data: lcgBytes(rapid.SampledFrom([]int{262144*2 + 17, 262145, 1<<20 - 1, 1 << 20, 1<<20 + 1, 2<<20 + 5}).Draw(t, "bigSize"), 5, 0)}
 			feats["file>256KiB"] = true
 		}
 		if rapid.IntRange(0, scale(80, 30)).Draw(t, "bigdir") == 0 {
